@@ -30,7 +30,8 @@ Absent == [present |-> FALSE, ls |-> <<>>]
 Lbl(ls) == [present |-> TRUE, ls |-> ls]
 LabelSetsSmall == {Absent, Lbl(<<>>), Lbl(<<"a">>), Lbl(<<"a", "b">>), Lbl(<<"b", "a">>)}
 LabelSetsFull == {Absent, Lbl(<<>>), Lbl(<<"a">>), Lbl(<<"b">>), Lbl(<<"c">>), Lbl(<<"a", "b">>), Lbl(<<"b", "a">>), Lbl(<<"a", "c">>),
-                  Lbl(<<"b", "c">>), Lbl(<<"c", "b">>), Lbl(<<"a", "b", "c">>), Lbl(<<"c", "a", "b">>)}
+                  Lbl(<<"b", "c">>), Lbl(<<"c", "b">>), Lbl(<<"a", "b", "c">>), Lbl(<<"c", "a", "b">>),
+                  Lbl(<<"a", "a">>), Lbl(<<"b", "b">>), Lbl(<<"a", "a", "b">>)}      \* a recipient repeating a label
 
 KType(k) == LET c == SubSeq(k, 1, 1) IN
             IF c = "x" THEN "X25519" ELSE IF c = "e" THEN "ssh-ed25519" ELSE IF c = "r" THEN "ssh-rsa" ELSE "scrypt"
@@ -56,6 +57,12 @@ StanzaFor(r, fk) ==
 LabelSet(r, i) == IF r.k = "K" /\ KType(r.key) = "scrypt" THEN {"random#" \o ToString(i)}
                   ELSE IF ~r.labels.present THEN {}
                   ELSE {r.labels.ls[j] : j \in 1..Len(r.labels.ls)}
+
+\* A recipient that repeats a label: if its SET equals another recipient's set while the lists differ only by the
+\* repetition, the property text (sets) and a list reading disagree; such lists are marked and no verdict is taken on them.
+LabelBag(r) == IF ~r.labels.present THEN <<>> ELSE SortSeq(r.labels.ls, LAMBDA x, y : x < y)
+Ambiguous(rs) == \E i \in 1..Len(rs) : rs[i].k \in {"L"} /\ LabelSet(rs[i], i) = LabelSet(rs[1], 1) /\ LabelBag(rs[i]) # LabelBag(rs[1])
+                                          /\ rs[1].k \in {"L", "K"}
 
 \* Encrypt(rs): [ok, why, stanzas, written]   written = bytes handed to dst before returning (0 on every refusal)
 Encrypt(rs) ==
@@ -187,7 +194,8 @@ LabelRule == /\ (Encrypt(rs).ok <=> (\A i \in 1..Len(rs) : rs[i].k # "F" /\ Labe
              /\ (~Encrypt(rs).ok => Encrypt(rs).written = 0)
 
 Emit == (Done \/ (Mode = "labels") \/ (~Encrypt(rs).ok /\ res.c = "init")) =>
-   PrintT("CASE " \o ToJson([rs |-> rs, ids |-> ids, edit |-> edit, enc |-> [ok |-> Encrypt(rs).ok, why |-> Encrypt(rs).why],
+   PrintT("CASE " \o ToJson([rs |-> rs, ids |-> ids, edit |-> edit,
+                              enc |-> [ok |-> Encrypt(rs).ok, why |-> (IF Mode = "labels" /\ Ambiguous(rs) THEN "ambiguous" ELSE Encrypt(rs).why)],
                               res |-> res, untouched |-> Untouched,
                               opener |-> (IF Done /\ AnyListed /\ Untouched THEN FirstListed ELSE 0)]))
 =============================================================================
